@@ -165,10 +165,22 @@ def histories(draw, o=None):
                     ("mwrite", 0), ("mreplace", 0), ("mremove", 0), ("redo", 8)):
         kinds += [k] * w.get(k, dflt)
     ops = []
+    # locality: with probability p_focus an operation that names a target names one of 1-2 "focus" targets, so that
+    # multi-step shapes on ONE target (build, edit by hand, build, edit again, build ...) are not vanishingly rare
+    focus = _subset(draw, targets, 1, 2)
+    pf = o.get("p_focus", 0)
+
+    def pick_target():
+        if pf and draw(st.integers(0, 99)) < pf:
+            return _pick(draw, focus)
+        return _pick(draw, targets)
     for _ in range(n):
         k = _pick(draw, kinds)
         if k in ("cmd", "redo"):
             ts = _subset(draw, targets, 1, o.get("max_cmd_targets", 2))
+            if pf and draw(st.integers(0, 99)) < pf:
+                f0 = _pick(draw, focus)
+                ts = [f0] + [t for t in ts[1:] if t != f0]
             cwd = _pick(draw, dirs) if draw(st.integers(0, 99)) < 30 else ""
             ops.append(["cmd", "redo" if k == "redo" else "ifchange", ts, cwd])
         elif k == "edit":
@@ -176,7 +188,7 @@ def histories(draw, o=None):
         elif k == "touch":
             ops.append(["touch", _pick(draw, sources)])
         elif k == "rmtarget":
-            ops.append(["rmtarget", _pick(draw, targets)])
+            ops.append(["rmtarget", pick_target()])
         elif k == "setdo":
             dof = _pick(draw, sorted(dofiles))
             lim = dometa[dof]
@@ -231,7 +243,7 @@ def histories(draw, o=None):
             ops.append(["query", draw(st.sampled_from(["ood", "targets", "sources"])),
                         _pick(draw, dirs) if draw(st.integers(0, 99)) < 30 else ""])
         elif k in ("mwrite", "mreplace", "mremove"):
-            ops.append([k, _pick(draw, targets)])
+            ops.append([k, pick_target()])
     cfg = {"log": draw(st.integers(0, 1)), "keep_going": 0}
     if o.get("keep_going"):
         cfg["keep_going"] = draw(st.integers(0, 1))
